@@ -59,47 +59,77 @@ def unkeyables():
             ('generator', _gen())]
 
 
-def expected_result(cfg, x, y):
-    if cfg.get('result', 'str') == 'tuple':
+FALSY = {1: None, 2: 0, 3: ''}
+
+
+def expected_result(cfg, b):
+    """what the undecorated function returns for binding b"""
+    if cfg.get('fn') == 'var':
+        return 'g(%r,%r,%r)' % b
+    x, y = b
+    mode = cfg.get('result', 'str')
+    if mode == 'tuple':
         return ('g', x, y)
+    if mode == 'falsy' and y == 0 and x in FALSY:
+        return FALSY[x]
     return 'g(%r,%r)' % (x, y)
 
 
 def make_function(cfg, log, ctl):
-    """fresh recorder function; log and ctl are shared lists/dicts"""
-    tup = cfg.get('result', 'str') == 'tuple'
-
-    def g(x, y=0):
-        log.append((x, y))
-        if ctl.get('raise') is not None:
-            exc = ctl['raise']
-            ctl['raised'] = exc
-            raise exc
-        if not isinstance(x, int):
-            return ('u', type(x).__name__)
-        if tup:
-            return ('g', x, y)
-        return 'g(%r,%r)' % (x, y)
+    """fresh recorder function; log and ctl are shared lists/dicts.
+    cfg['fn']: 'xy' (default) g(x, y=0) | 'var' g(x, *rest, **opts);
+    cfg['result']: 'str' | 'tuple' | 'falsy' (None / 0 / '' for x = 1 / 2 / 3)"""
+    if cfg.get('fn') == 'var':
+        def g(x, *rest, **opts):
+            b = (x, rest, tuple(sorted(opts.items())))
+            log.append(b)
+            if ctl.get('raise') is not None:
+                exc = ctl['raise']
+                ctl['raised'] = exc
+                raise exc
+            return 'g(%r,%r,%r)' % b
+    else:
+        def g(x, y=0):
+            log.append((x, y))
+            if ctl.get('raise') is not None:
+                exc = ctl['raise']
+                ctl['raised'] = exc
+                raise exc
+            if not isinstance(x, int):
+                return ('u', type(x).__name__)
+            return expected_result(cfg, (x, y))
     g.log = log
     g.ctl = ctl
     return g
 
 
-# calls: index -> (args, kwargs); bindings: index -> (x, y)
+# calls: index -> (args, kwargs); bindings: index -> what the function body sees
 def call_table(cfg):
     n = cfg.get('nargs', 3)
+    spell = cfg.get('spellings', 2)
+    if cfg.get('fn') == 'var':
+        # one extra positional of a "fast" type, calls that differ only in the named argument, a keyword extra
+        calls = [((1, 7), {}), ((2, 7), {}), ((1,), {}), ((1, 8), {'o': 1}), ((2,), {'o': 1})][:max(3, n)]
+        alts = [((), {'x': 1}), ((2, 7), {})]
+        return calls + alts[:min(spell, 1)]
     calls = []
     for x in range(1, n + 1):
         calls.append(((x,), {}))
-    spell = cfg.get('spellings', 2)
     # alternative spellings of existing bindings (same bound arguments)
     alts = [((), {'x': 1}), ((2,), {'y': 0}), ((), {'y': 0, 'x': 1})]
     calls.extend(alts[:spell])
     return calls
 
 
-def binding(call):
+def binding(call, cfg=None):
     args, kw = call
+    if cfg is not None and cfg.get('fn') == 'var':
+        kw = dict(kw)
+        if args:
+            x, rest = args[0], tuple(args[1:])
+        else:
+            x, rest = kw.pop('x'), ()
+        return (x, rest, tuple(sorted(kw.items())))
     d = {'y': 0}
     d.update(kw)
     for n, v in zip(('x', 'y'), args):
@@ -194,7 +224,7 @@ class Sys(object):
         self.log = []
         self.ctl = {}
         self.calls = call_table(cfg)
-        self.bindings = [binding(c) for c in self.calls]
+        self.bindings = [binding(c, cfg) for c in self.calls]
         self.scratch = None
         self.chooser = Chooser()
         self.orig = None            # original wrapper kept after a reclone
@@ -213,12 +243,12 @@ class Sys(object):
         init = cfg.get('init', 'empty')
         if init == 'seeded_archive':
             arch = self.wrapper.__cache__().archive
-            for s, (x, y) in enumerate(self.bindings):
-                arch[self.kmap[s]] = expected_result(cfg, x, y)
+            for s, b in enumerate(self.bindings):
+                arch[self.kmap[s]] = expected_result(cfg, b)
         elif init == 'seeded_cache':
             c = self.wrapper.__cache__()
-            for s, (x, y) in enumerate(self.bindings):
-                c[self.kmap[s]] = expected_result(cfg, x, y)
+            for s, b in enumerate(self.bindings):
+                c[self.kmap[s]] = expected_result(cfg, b)
 
     # -- construction helpers
     def _make_cache(self, first):
@@ -561,7 +591,7 @@ class Result(object):
 
 def cfg_name(cfg):
     keys = ('module', 'alg', 'maxsize', 'maxsize_pos', 'purge', 'keymap', 'backend', 'init',
-            'ignore', 'tol', 'deep', 'result', 'nargs')
+            'ignore', 'tol', 'deep', 'result', 'fn', 'nargs')
     return ' '.join('%s=%s' % (k, cfg[k]) for k in keys if k in cfg and cfg[k] not in (None, False))
 
 
